@@ -216,7 +216,7 @@ class Check:
                 self.axioms.setdefault("_closed", 0)
                 self.axioms["_closed"] += 1
             elif blk.startswith("Axioms:"):
-                for m in re.finditer(r"^([A-Za-z_][A-Za-z0-9_.']*)\s*:", blk, re.M):
+                for m in re.finditer(r"^([A-Za-z_][A-Za-z0-9_.']*)\s*:", blk[len("Axioms:"):], re.M):
                     ax = m.group(1)
                     self.axioms.setdefault("_axioms", [])
                     if ax not in self.axioms["_axioms"]:
